@@ -5,6 +5,7 @@ These are what the spec-only fallback driver can still answer when `Gmsm/Gen` no
 import Gmsm.Spec.SM4
 import Gmsm.Spec.SM3
 import Gmsm.Spec.HMAC
+import Gmsm.Spec.GCM
 namespace Driver
 open Gmsm
 
@@ -64,9 +65,43 @@ def pbkdf2sm3 (args : List String) : String :=
     | _, _, _, _ => "bad-op"
   | _ => "bad-op"
 
+def gcmenc (args : List String) : String :=
+  match args.mapM ofHex with
+  | some [key, iv, aad, pt] =>
+    if key.length ≠ 16 then "err" else
+    let (c, t) := Spec.GCM.ae (Spec.SM4.encrypt key) iv pt aad
+    hx c ++ " " ++ hx t
+  | _ => "bad-op"
+
+def gcmdec (args : List String) : String :=
+  match args.mapM ofHex with
+  | some [key, iv, aad, ct, tag] =>
+    if key.length ≠ 16 then "err" else
+    let E := Spec.SM4.encrypt key
+    let h := Spec.GCM.ofBytes (E (List.replicate 16 0))
+    let j := Spec.GCM.j0 h iv
+    let p := Spec.GCM.gctrAll E (Spec.GCM.inc32 j) ct
+    hx p ++ (if (Spec.GCM.ad E iv ct aad tag).isSome then " 1" else " 0")
+  | _ => "bad-op"
+
+def gfmul (args : List String) : String :=
+  match args.mapM ofHex with
+  | some [x, y] => hx (Spec.GCM.toBytes (Spec.GCM.mulGF (Spec.GCM.ofBytes x) (Spec.GCM.ofBytes y)))
+  | _ => "bad-op"
+
+def ghashOp (args : List String) : String :=
+  match args.mapM ofHex with
+  | some [h, a, c] => hx (Spec.GCM.toBytes (Spec.GCM.ghash (Spec.GCM.ofBytes h) a c))
+  | _ => "bad-op"
+
 def specDispatch (toks : List String) : Option String :=
   match toks with
   | "sm4blk" :: rest => some (sm4blk rest)
+  | "gcmenc" :: rest => some (gcmenc rest)
+  | "gcmtls" :: rest => some (gcmenc rest)
+  | "gcmdec" :: rest => some (gcmdec rest)
+  | "gfmul" :: rest => some (gfmul rest)
+  | "ghash" :: rest => some (ghashOp rest)
   | "sm3sum" :: rest => some (sm3sum rest)
   | "sm3big" :: rest => some (sm3big rest)
   | "hmacsm3" :: rest => some (hmacsm3 rest)
